@@ -19,7 +19,7 @@ use std::path::PathBuf;
 #[cfg(not(roughenough_verif))]
 use std::thread;
 #[cfg(roughenough_verif)]
-use verif_std::{fs::File, thread};
+use verif_std::{fs::*, thread, *};
 use std::time::Duration;
 
 use data_encoding::{Encoding, HEXLOWER_PERMISSIVE};
